@@ -17,6 +17,9 @@ def check(run):
         jobs.append({"k": "matrix", "eco": eco, "tag": "U", "texts": [t for t, _ in mem], "part": [p for _, p in mem]})
     # B2: seeded universes beyond the TLC alphabet
     jobs += seeded_universes(U, rnd, 6 if quick else 40)
+    # B2: spellings of zero (trailing .0 / .00 / .000 parts, 0 written 00) and type-width boundary numbers around the
+    # same template: classes of equal-comparing members of different arity, and neighbours at 2^16, 2^31, 2^63
+    jobs += zero_and_boundary_families(U, rnd, 4 if quick else 30)
     # B2: strings sampled from the regular expressions of the parsers themselves (shapes the grammar automata may lack)
     import regexgen
     for eco in sorted(U):
@@ -90,6 +93,29 @@ def seeded_universes(U, rnd, k):
                     if rnd.random() < 0.2: t2 = t2.swapcase()
                     texts.append(t2); parts.append(p)
             jobs.append({"k": "matrix", "eco": eco, "tag": "seeded", "texts": texts, "part": parts})
+    return jobs
+
+def zero_and_boundary_families(U, rnd, k):
+    import re, refcheck
+    head = re.compile(r"^[vV=]*\d+(?:\.\d+)*")
+    jobs = []
+    for eco in sorted(U):
+        pool = [(t, p) for t, p in U[eco] if head.match(t) and len(t) < 40]
+        if not pool: continue
+        for r in range(k):
+            texts, parts = [], []
+            for t, p in rnd.sample(pool, min(5, len(pool))):
+                m = head.match(t)
+                h, rest = t[:m.end()], t[m.end():]
+                fam = [h + z + rest for z in ("", ".0", ".00", ".0.0", ".000", ".0.00", ".00.0")]
+                fam += [re.sub(r"(?<![0-9])0(?![0-9])", z, t, count=1) for z in ("00", "000")]
+                runs = list(re.finditer(r"[0-9]+", t))
+                mm = rnd.choice(runs)
+                fam += [t[:mm.start()] + str(b) + t[mm.end():] for b in rnd.sample(refcheck.BOUNDARY, 8)]
+                for x in fam:
+                    if x not in texts:
+                        texts.append(x); parts.append(1 if (eco == "alpm" and "-" in x) else p)
+            jobs.append({"k": "matrix", "eco": eco, "tag": "zeros", "texts": texts, "part": parts})
     return jobs
 
 def replay(d):
